@@ -639,6 +639,391 @@ def d3_hook_witness(ctx, shim, plans):
     return ok
 
 
+# ------------------------------------------------------------------------------------------------
+# end to end through shape() on generated fonts (tools/fontbuild.py)
+
+import fontbuild
+
+NG = 14
+E_BASES = list(range(1, 7))
+E_MARKS = list(range(7, 12))
+TAG = lambda t: t.encode().hex()
+
+
+def buffer_order(text, d):
+    """glyph order GPOS sees: vertical text that is not top-to-bottom is reversed up front
+    (ensure_native_direction) and shaped as TTB; DFLT script has no native horizontal direction"""
+    return (list(reversed(text)), "t") if d == "b" else (list(text), d)
+
+
+def shape_line(fid, d, text, feats="-"):
+    t = ",".join(f"{0xE000 + g - 1:x}:{i}" for i, g in enumerate(text)) or "-"
+    return f"shape {fid} {d} - - 0 0 {feats} - - {t}"
+
+
+def parse_shape(o):
+    t = o.split()
+    if not t or t[0] != "ok":
+        return None
+    out = []
+    for x in t[2:]:
+        g, cl, fl, xa, ya, xo, yo = x.split(":")
+        out.append((int(g), int(cl), int(xa), int(ya), int(xo), int(yo)))
+    return out
+
+
+def pen_by_cluster(out):
+    """{cluster: (origin_x, origin_y, record)} in the pen model over the output order"""
+    x = y = 0
+    res = {}
+    for g, cl, xa, ya, xo, yo in out:
+        res[cl] = (x + xo, y + yo, (g, xa, ya, xo, yo))
+        x += xa; y += ya
+    return res
+
+
+def attach_font(r):
+    """marks / mkmk / cursive lookups, all under the common feature `mark` (applied in every direction,
+    in lookup-list order)"""
+    adv = [0] + [r.range(300, 900) for _ in range(NG - 1)]
+    rec = {"num_glyphs": NG, "cmap": "pua", "advances": adv,
+           "gdef": {"classes": {**{g: 1 for g in E_BASES}, **{g: 3 for g in E_MARKS}}}}
+    if r.chance(1, 2):
+        rec["vadvances"] = [0] + [r.range(700, 1200) for _ in range(NG - 1)]
+    if r.chance(1, 3):
+        rec["vorg"] = {"default": r.range(600, 900), "glyphs": {g: r.range(500, 950) for g in r.sample(range(1, NG), 4)}}
+    sem, lookups = [], []
+    kinds = r.shuffle(["mark", "mkmk", "curs"] + (["curs"] if r.chance(1, 2) else []) + (["mark"] if r.chance(1, 4) else []))
+    ignore_marks = r.chance(2, 3)
+    for kd in kinds:
+        if kd == "mark":
+            k = r.range(1, 2)
+            mk = [g for g in E_MARKS if r.chance(5, 6)] or [E_MARKS[0]]
+            bs = [g for g in E_BASES if r.chance(5, 6)] or [E_BASES[0]]
+            marks = {g: (r.below(k), ra(r)) for g in mk}
+            bases = {g: [ra(r) if r.chance(7, 8) else None for _ in range(k)] for g in bs}
+            lookups.append({"type": 4, "flag": 0, "subtables": [{
+                "mark_coverage": mk, "base_coverage": bs, "class_count": k,
+                "marks": [marks[g] for g in mk], "bases": [bases[g] for g in bs]}]})
+            sem.append({"kind": "mark", "marks": marks, "bases": bases})
+        elif kd == "mkmk":
+            k = r.range(1, 2)
+            m1 = [g for g in E_MARKS if r.chance(5, 6)] or [E_MARKS[0]]
+            m2 = [g for g in E_MARKS if r.chance(5, 6)] or [E_MARKS[1]]
+            marks = {g: (r.below(k), ra(r)) for g in m1}
+            mark2 = {g: [ra(r) if r.chance(7, 8) else None for _ in range(k)] for g in m2}
+            lookups.append({"type": 6, "flag": 0, "subtables": [{
+                "mark1_coverage": m1, "mark2_coverage": m2, "class_count": k,
+                "marks": [marks[g] for g in m1], "mark2": [mark2[g] for g in m2]}]})
+            sem.append({"kind": "mkmk", "marks": marks, "mark2": mark2})
+        else:
+            flag = (IGNORE_MARKS if ignore_marks else 0) | (RTL_FLAG if r.chance(1, 2) else 0)
+            cv = [g for g in E_BASES if r.chance(5, 6)] or E_BASES[:2]
+            ee = {g: (ra(r) if r.chance(8, 9) else None, ra(r) if r.chance(8, 9) else None) for g in cv}
+            lookups.append({"type": 3, "flag": flag, "subtables": [{"coverage": cv, "entry_exit": [ee[g] for g in cv]}]})
+            sem.append({"kind": "curs", "flag": flag, "ee": ee})
+    rec["gpos"] = {"features": [{"tag": "mark", "lookups": list(range(len(lookups)))}], "lookups": lookups}
+    return rec, sem
+
+
+def attach_text(r):
+    k = r.below(12)
+    if k == 0:       # a long run of marks on one base: mkmk chain far beyond 64
+        return [r.choice(E_BASES)] + [r.choice(E_MARKS) for _ in range(r.range(60, 90))]
+    if k == 1:       # a long cursive run (forward chain of the attachment recursion)
+        return [r.choice(E_BASES) for _ in range(r.range(64, 130))]
+    t = []
+    for _ in range(r.range(1, 6)):
+        t.append(r.choice(E_BASES))
+        for _ in range(r.choice([0, 0, 1, 1, 2, 3])):
+            t.append(r.choice(E_MARKS))
+    if r.chance(1, 8):
+        t.insert(0, r.choice(E_MARKS))
+    return t
+
+
+def expected_attachments(sem, B):
+    """which mark hangs on which glyph with which anchors, and which cursive pairs are joined with which
+    anchors — by the OpenType rules (nearest preceding base / previous mark / previous unskipped glyph),
+    the last lookup that applies wins"""
+    n = len(B)
+    is_mark = [g in E_MARKS for g in B]
+    att, pairs = {}, {}
+    for lk in sem:
+        if lk["kind"] == "mark":
+            for i in range(n):
+                if B[i] not in lk["marks"]:
+                    continue
+                b = next((k for k in range(i - 1, -1, -1) if not is_mark[k]), None)
+                if b is None or B[b] not in lk["bases"]:
+                    continue
+                cls, ma = lk["marks"][B[i]]
+                ba = lk["bases"][B[b]][cls]
+                if ba is not None:
+                    att[i] = (b, ma, ba)
+        elif lk["kind"] == "mkmk":
+            for i in range(1, n):
+                if B[i] not in lk["marks"] or not is_mark[i - 1] or B[i - 1] not in lk["mark2"]:
+                    continue
+                cls, ma = lk["marks"][B[i]]
+                ba = lk["mark2"][B[i - 1]][cls]
+                if ba is not None:
+                    att[i] = (i - 1, ma, ba)
+        else:
+            skip = lambda k: bool(lk["flag"] & IGNORE_MARKS) and is_mark[k]
+            for j in range(1, n):
+                if skip(j) or B[j] not in lk["ee"] or lk["ee"][B[j]][0] is None:
+                    continue
+                i = next((k for k in range(j - 1, -1, -1) if not skip(k)), None)
+                if i is None or B[i] not in lk["ee"] or lk["ee"][B[i]][1] is None:
+                    continue
+                pairs[j] = (i, lk["ee"][B[j]][0], lk["ee"][B[i]][1])
+    return att, pairs
+
+
+def attach_search(ctx, shim, r, nfonts, ntexts):
+    groups, meta = [], []
+    for f in range(nfonts):
+        rec, sem = attach_font(r)
+        fid = f"A{f}"
+        lines, ms = [f"font {fid} {fontbuild.hexfont(rec)}"], []
+        for _ in range(ntexts):
+            text = attach_text(r)
+            d = r.choice(DIRS)
+            lines.append(shape_line(fid, d, text))
+            ms.append((text, d))
+        lines.append(f"fontdrop {fid}")
+        groups.append(lines); meta.append((rec, sem, ms))
+    outs = vlib.run_groups(shim, groups, timeout=900)
+    stats = {"shapes": 0, "marks_checked": 0, "pairs_checked": 0, "long_mark_chains": 0, "long_cursive_runs": 0,
+             "per_dir": {d: 0 for d in DIRS}}
+    bad = 0
+    for (rec, sem, ms), o, g in zip(meta, outs, groups):
+        if o[0] != "ok":
+            ctx.violation(f"generated attachment font rejected: {o[0]}", {"stage": "search", "stream": "gpos-shape",
+                          "font_line": g[0][:200]}); continue
+        for (text, d), so, req in zip(ms, o[1:-1], g[1:-1]):
+            stats["shapes"] += 1
+            out = parse_shape(so)
+            rp = {"stage": "search", "stream": "gpos-shape", "font_line": g[0], "request": req, "observed": so,
+                  "recipe": rec}
+            if out is None or len(out) != len(text):
+                ctx.violation(f"shape() failed or changed the glyph count on an attachment font: {so[:80]}", rp); continue
+            B, gd = buffer_order(text, d)
+            n = len(B)
+            cl_of = (lambda k: n - 1 - k) if d == "b" else (lambda k: k)      # buffer index -> input cluster
+            pen = pen_by_cluster(out)
+            att, pairs = expected_attachments(sem, B)
+            stats["per_dir"][d] += 1
+            depth = 0
+            for i in range(n):
+                depth = depth + 1 if i in att and att[i][0] == i - 1 and i - 1 in att else 0
+                if depth >= 64: stats["long_mark_chains"] += 1; break
+            if len(pairs) >= 64: stats["long_cursive_runs"] += 1
+            why = None
+            for i, (t, ma, ba) in att.items():
+                stats["marks_checked"] += 1
+                pi, pt = pen[cl_of(i)], pen[cl_of(t)]
+                if (pi[0] + ma[0], pi[1] + ma[1]) != (pt[0] + ba[0], pt[1] + ba[1]):
+                    why = (f"mark at buffer index {i} (glyph {B[i]}): origin+mark anchor = {(pi[0] + ma[0], pi[1] + ma[1])} "
+                           f"but target {t} (glyph {B[t]}) origin+anchor = {(pt[0] + ba[0], pt[1] + ba[1])}, dir {d}")
+                    break
+            if why is None:
+                horiz = gd in "lr"
+                for j, (i, en, ex) in pairs.items():
+                    stats["pairs_checked"] += 1
+                    pi, pj = pen[cl_of(i)], pen[cl_of(j)]
+                    if (pj[0] + en[0], pj[1] + en[1]) != (pi[0] + ex[0], pi[1] + ex[1]):
+                        why = (f"cursive pair ({i},{j}) glyphs ({B[i]},{B[j]}): entry point {(pj[0] + en[0], pj[1] + en[1])} "
+                               f"!= exit point {(pi[0] + ex[0], pi[1] + ex[1])}, dir {d} ({'horizontal' if horiz else 'vertical'})")
+                        break
+            if why:
+                bad += 1
+                ctx.violation("attached anchors do not coincide: " + why, rp)
+    ctx.note_search("gpos-shape", stats["shapes"], stats["marks_checked"] + stats["pairs_checked"], detail=stats,
+                    rule="generated fonts (GDEF classes, mark-to-base, mark-to-mark, 1-2 cursive lookups with random "
+                         "RightToLeft / IgnoreMarks flags, random anchors, optional vmtx/VORG) x random texts x 4 directions "
+                         "through shape(); oracle: in the pen model of the output every attached mark's anchor equals its "
+                         "target's anchor and every joined pair's entry point equals the exit point (both axes); "
+                         "non-trivial = number of anchor pairs checked")
+
+
+def value_font(r, with_gpos=True, with_kern=True):
+    adv = [0] + [r.range(300, 900) for _ in range(NG - 1)]
+    rec = {"num_glyphs": NG, "cmap": "pua", "advances": adv}
+    if r.chance(1, 2):
+        rec["vadvances"] = [0] + [r.range(700, 1200) for _ in range(NG - 1)]
+    sem = {"gpos": [], "kern": []}
+    gl = list(range(1, 9))
+    if with_gpos:
+        lookups = []
+        for kd in r.shuffle(["single", "pair"] + (["single"] if r.chance(1, 3) else [])):
+            if kd == "single":
+                vals = {g: rvr(r) for g in gl if r.chance(1, 2)} or {1: rvr(r)}
+                keys = ("xPlacement", "yPlacement", "xAdvance", "yAdvance")
+                lookups.append({"type": 1, "flag": 0, "subtables": [{"format": 2, "coverage": list(vals),
+                                "values": [dict(zip(keys, vals[g])) for g in vals], "value_format": 0xF}]})
+                sem["gpos"].append({"kind": "single", "vals": vals})
+            else:
+                keys = ("xPlacement", "yPlacement", "xAdvance", "yAdvance")
+                second_zero = r.chance(1, 3)
+                ps = {}
+                for a in gl:
+                    if r.chance(2, 3):
+                        ps[a] = {b: (rvr(r), (0, 0, 0, 0) if second_zero or r.chance(1, 3) else rvr(r)) for b in gl if r.chance(1, 2)}
+                ps = {a: v for a, v in ps.items() if v} or {1: {2: (rvr(r), rvr(r))}}
+                lookups.append({"type": 2, "flag": 0, "subtables": [{"format": 1, "coverage": list(ps),
+                                "pairsets": [[(b, dict(zip(keys, v1)), dict(zip(keys, v2))) for b, (v1, v2) in ps[a].items()] for a in ps],
+                                "value_format1": 0xF, "value_format2": 0xF}]})
+                sem["gpos"].append({"kind": "pair", "pairs": ps})
+        rec["gpos"] = {"features": [{"tag": "mark", "lookups": list(range(len(lookups)))}], "lookups": lookups}
+    if with_kern:
+        subs = []
+        for _ in range(r.range(1, 3)):
+            pairs = {(a, b): rkern(r) for a in gl for b in gl if r.chance(1, 3)}
+            horiz = r.chance(5, 6)
+            subs.append({"horizontal": horiz, "pairs": [(a, b, v) for (a, b), v in pairs.items()]})
+            sem["kern"].append({"horizontal": horiz, "pairs": pairs})
+        rec["kern"] = subs
+    return rec, sem
+
+
+def expected_values(sem, text, d, kern_on):
+    """deltas (dxa, dya, dxo, dyo) per input cluster caused by the font's single/pair records and kern pairs"""
+    B, gd = buffer_order(text, d)
+    n = len(B)
+    horiz = gd in "lr"
+    D = [[0, 0, 0, 0] for _ in range(n)]
+
+    def addv(k, v):
+        D[k][2] += v[0]; D[k][3] += v[1]
+        if horiz: D[k][0] += v[2]
+        else: D[k][1] -= v[3]
+    for lk in sem["gpos"]:
+        if lk["kind"] == "single":
+            for k in range(n):
+                if B[k] in lk["vals"]: addv(k, lk["vals"][B[k]])
+        else:
+            i = 0
+            while i < n:
+                a = B[i]
+                if a in lk["pairs"] and i + 1 < n and B[i + 1] in lk["pairs"][a]:
+                    v1, v2 = lk["pairs"][a][B[i + 1]]
+                    if any(v1): addv(i, v1)
+                    if any(v2): addv(i + 1, v2)
+                    i = i + 2 if any(v2) else i + 1
+                else:
+                    i += 1
+    if kern_on and horiz:
+        V = list(range(n - 1, -1, -1)) if gd == "r" else list(range(n))      # visual order of buffer indices
+        for sub in sem["kern"]:
+            if not sub["horizontal"]:
+                continue
+            i = 0
+            while i + 1 < n:
+                kv = sub["pairs"].get((B[V[i]], B[V[i + 1]]), 0)
+                if kv:
+                    k1 = kv >> 1; k2 = kv - k1
+                    D[V[i]][0] += k1; D[V[i + 1]][0] += k2; D[V[i + 1]][2] += k2
+                i += 1
+    cl_of = (lambda k: n - 1 - k) if d == "b" else (lambda k: k)
+    return {cl_of(k): tuple(D[k]) for k in range(n)}
+
+
+def value_search(ctx, shim, r, nfonts, ntexts, plans):
+    groups, meta = [], []
+    for f in range(nfonts):
+        k = r.below(4)
+        rec, sem = value_font(r, with_gpos=k != 0, with_kern=k != 1)
+        plain = {x: rec[x] for x in rec if x not in ("gpos", "kern")}
+        lines = [f"font V{f} {fontbuild.hexfont(rec)}", f"font P{f} {fontbuild.hexfont(plain)}"]
+        ms = []
+        for _ in range(ntexts):
+            text = [r.range(1, 8) for _ in range(r.range(1, 9))]
+            d = r.choice(DIRS)
+            kf = r.choice(["-", "-", "0", "1"])
+            feats = "-" if kf == "-" else f"{TAG('kern')}:{kf}:0:4294967295"
+            lines += [shape_line(f"V{f}", d, text, feats), shape_line(f"P{f}", d, text, feats)]
+            ms.append((text, d, kf))
+        lines += [f"fontdrop V{f}", f"fontdrop P{f}"]
+        groups.append(lines); meta.append((rec, sem, ms))
+    outs = vlib.run_groups(shim, groups, timeout=900)
+    stats = {"shapes": 0, "with_nonzero_delta": 0, "kern_off": 0, "order_swapped_D3": 0, "per_dir": {d: 0 for d in DIRS}}
+    d3_reported = False
+    for (rec, sem, ms), o, g in zip(meta, outs, groups):
+        if o[0] != "ok" or o[1] != "ok":
+            ctx.violation("generated value font rejected", {"stage": "search", "stream": "value-shape", "font_line": g[0][:200]})
+            continue
+        for t, (text, d, kf) in enumerate(ms):
+            sv, sp, req = o[2 + 2 * t], o[3 + 2 * t], g[2 + 2 * t]
+            a, b = parse_shape(sv), parse_shape(sp)
+            stats["shapes"] += 1; stats["per_dir"][d] += 1
+            rp = {"stage": "search", "stream": "value-shape", "font_line": g[0], "plain_font_line": g[1], "request": req,
+                  "observed": sv, "plain": sp, "recipe": rec}
+            if a is None or b is None or len(a) != len(text) or len(b) != len(text):
+                ctx.violation(f"shape() failed on a value font: {sv[:80]}", rp); continue
+            kern_on = kf != "0"
+            if not kern_on: stats["kern_off"] += 1
+            if [x[1] for x in a] != [x[1] for x in b]:
+                stats["order_swapped_D3"] += 1
+                if not d3_reported:
+                    d3_reported = True
+                    rp2 = dict(rp); rp2.update({"stream": "kern-bracket-shape", "theorem": "known_C02_kern_bracket"})
+                    ctx.violation(f"glyph order differs from the same text on the font without kern/GPOS "
+                                  f"(dir {d}, kern feature {kf}): {[x[1] for x in a]} vs {[x[1] for x in b]}", rp2)
+                continue
+            exp = expected_values(sem, text, d, kern_on)
+            got = {x[1]: (x[2] - y[2], x[3] - y[3], x[4] - y[4], x[5] - y[5]) for x, y in zip(a, b)}
+            if any(any(v) for v in exp.values()): stats["with_nonzero_delta"] += 1
+            if got != exp:
+                cl = next(c for c in exp if got.get(c) != exp[c])
+                ctx.violation(f"adjustment of cluster {cl} is {got.get(cl)} but the font's records give {exp[cl]} "
+                              f"(dxa, dya, dxo, dyo; dir {d}, kern feature {kf})", rp)
+    ctx.note_search("value-shape", stats["shapes"], stats["with_nonzero_delta"], detail=stats,
+                    rule="generated fonts with SinglePos/PairPos lookups and/or a kern table (1-3 format-0 subtables) x random "
+                         "texts x 4 directions x kern feature on/off/default, shaped with the font and with the same font "
+                         "stripped of GPOS/kern; the per-glyph difference must equal the records' values (kern split "
+                         "kern>>1 / rest, pairs in visual order); non-trivial = some expected delta is non-zero")
+
+
+def d3_shape_witness(ctx, shim):
+    """D3 through the public API: kern-only font, RTL text, feature kern=0."""
+    rec = {"num_glyphs": 4, "cmap": "pua", "advances": [0, 500, 600, 700], "kern": [{"pairs": [(1, 2, -50)]}]}
+    plain = {k: v for k, v in rec.items() if k != "kern"}
+    feats = f"{TAG('kern')}:0:0:4294967295"
+    lines = [f"font K {fontbuild.hexfont(rec)}", f"font Q {fontbuild.hexfont(plain)}",
+             shape_line("K", "r", [1, 2, 3], feats), shape_line("Q", "r", [1, 2, 3], feats)]
+    o = vlib.run_groups(shim, [lines], nproc=1)[0]
+    a, b = parse_shape(o[2]), parse_shape(o[3])
+    ctx.note_search("kern-bracket-shape-witness", 1, 1, rule="kern-only font vs the same font without kern, RTL, kern=0")
+    if a is None or b is None or [x[:2] for x in a] != [x[:2] for x in b]:
+        ctx.violation("shape(): RTL text, feature kern=0, font with a kern table: glyphs come out in logical order "
+                      f"({[x[0] for x in a] if a else o[2]}) instead of visual order ({[x[0] for x in b] if b else o[3]})",
+                      {"stage": "search", "stream": "kern-bracket-shape", "theorem": "known_C02_kern_bracket",
+                       "font_line": lines[0], "plain_font_line": lines[1], "request": lines[2],
+                       "observed": o[2], "plain": o[3]})
+
+
+def btt_hook_witness(ctx, shim):
+    """known_C07_cursive_btt replayed on the crate's CursiveAdjustment::apply (BTT is not reachable through
+    shape(): vertical text that is not TTB is reversed and shaped as TTB)."""
+    recs = {1: ((0, 30), (0, 40)), 2: ((0, 30), (0, 40))}
+    ps = [[0, -100, 0, 0, 0, 0], [0, -100, 0, 5, 0, 0]]
+    ln = sub_line(3, cursive_subtable(recs), RTL_FLAG, "b", 1, [(1, BASE, 0), (2, BASE, 0)],
+                  "cursive 0 1 1 0 30 0 40 1", ps)
+    o = vlib.run_lines(shim, [ln], nproc=1)[0]
+    ctx.note_search("cursive-btt-witness", 1, 1, rule="the witness of known_C07_cursive_btt on the crate's cursive apply")
+    t = o.split()
+    if t[0] == "ok" and t[1] == "1":
+        q = [parse_pos(x) for x in t[4:]]
+        org = origins(q, True)
+        if org[1][1] + 30 != org[0][1] + 40:
+            ctx.violation(f"BottomToTop cursive attachment: entry point y={org[1][1] + 30} != exit point y={org[0][1] + 40} "
+                          "(pos[j].y_advance = entry_y lacks `+ pos[j].y_offset`; hook level only)",
+                          {"stage": "search", "stream": "cursive-btt", "theorem": "known_C07_cursive_btt",
+                           "request": ln, "observed": o})
+
+
 def run(ctx):
     ctx.assumptions += [
         "positions are modelled over unbounded Int; every i32 operation in the modelled code is +, -, negation or "
@@ -662,7 +1047,11 @@ def run(ctx):
     ctx.correspond("kern-driver", lines=drv_lines(ctx.rng("drv"), ctx.budget(3000, 80000), plans),
                    classify=classify_drv, canon=canon)
     mark_chain_search(ctx, shim, ctx.rng("markchain"), ctx.budget(3000, 60000))
+    attach_search(ctx, shim, ctx.rng("attach"), ctx.budget(150, 3000), ctx.budget(8, 12))
+    value_search(ctx, shim, ctx.rng("value"), ctx.budget(150, 3000), ctx.budget(8, 12), plans)
     d3_hook_witness(ctx, shim, plans)
+    d3_shape_witness(ctx, shim)
+    btt_hook_witness(ctx, shim)
 
 
 def replay(ctx, rp):
